@@ -70,7 +70,10 @@ pub enum Role {
     /// leaf: reads state, then like Check
     ReadCheck { spec: ReadSpec, slot: usize },
     /// leaf: emits `n` mutations under keys [COMPUTED_ROW + uid, col..] with values derived from the input
-    DataOut { n: usize, col0: Word, delete_first: bool },
+    /// `bad`: 0 = a valid encoding; 1 = the second mutation repeats the first one's key
+    /// (duplicate within the solution); 2 = the encoding lacks its last word; 3 = a negative
+    /// value length. All solutions solving the predicate then fail to decode together.
+    DataOut { n: usize, col0: Word, delete_first: bool, bad: u8 },
     /// leaf: ends with the single word 1 regardless of input
     True,
     /// leaf: ends with a final stack that is *near* the accepting shapes — [x, 1], [x, 2] with
@@ -112,6 +115,8 @@ pub struct Abstract {
     pub shape: String,
     pub beacons: bool,
     pub decoy_seed: u64,
+    pub stale_prelude: bool,
+    pub prefix_prelude: bool,
 }
 
 #[derive(Clone, Debug)]
@@ -333,11 +338,13 @@ pub fn gen_abstract(rng: &mut Rng, cfg: &GenCfg) -> Abstract {
             let role = if leaf {
                 match rng.below(12) {
                     0 | 1 | 2 if cfg.data_out => {
-                        let nm = 1 + rng.usize(2);
+                        let bad = if rng.chance(1, 12) { 1 + rng.below(3) as u8 } else { 0 };
+                        let nm = if bad == 1 { 2 } else { 1 + rng.usize(2) };
                         let r = Role::DataOut {
                             n: nm,
                             col0: col,
                             delete_first: rng.chance(1, 6),
+                            bad,
                         };
                         col += nm as Word;
                         r
@@ -448,6 +455,8 @@ pub fn gen_abstract(rng: &mut Rng, cfg: &GenCfg) -> Abstract {
         // compute children: begin/end beacons would misreport such nodes
         beacons: cfg.beacons && !cfg.soup,
         decoy_seed: rng.next_u64(),
+        stale_prelude: rng.chance(1, 3),
+        prefix_prelude: rng.chance(1, 4),
     }
 }
 
@@ -522,6 +531,9 @@ pub fn node_program(abs: &Abstract, pi: usize, a: usize) -> Vec<Op> {
         1 => v.extend([PUSH(0x8283_8283_8283_8283u64 as i64), POP()]),
         2 => v.extend([PUSH(0x0101_0101_0101_0101), POP()]),
         3 => v.extend([PUSH(0x0182_0183_8001_8101), POP()]),
+        // every pre-state and address effect, jumped over: an effect analysis that stops
+        // looking once it has "seen everything" misses a post-state read further down
+        4 => v.extend([PUSH(5), PUSH(1), JMPIF(), KRNG(), KREX(), THIS(), THISC()]),
         _ => {}
     }
     match &p.roles[a] {
@@ -631,6 +643,7 @@ pub fn node_program(abs: &Abstract, pi: usize, a: usize) -> Vec<Op> {
             n,
             col0,
             delete_first,
+            bad,
         } => {
             v.extend(frag_mem_to_stack());
             v.extend(frag_hash_stack()); // [h0..h3]
@@ -644,15 +657,20 @@ pub fn node_program(abs: &Abstract, pi: usize, a: usize) -> Vec<Op> {
                 words.push(2);
                 dyn_row.push(words.len());
                 words.push(0); // row = COMPUTED_ROW + uid, patched at run time
-                words.push(col0 + j as Word);
+                words.push(if *bad == 1 { *col0 } else { col0 + j as Word });
                 if j == 0 && *delete_first {
                     words.push(0);
                 } else {
-                    words.push(2);
+                    words.push(if *bad == 3 && j + 1 == *n { -2 } else { 2 });
                     dyn_h0.push(words.len());
                     words.push(0); // h0, patched at run time
                     words.push(t * 64 + j as Word);
                 }
+            }
+            if *bad == 2 {
+                // the last word is missing (the patches below never touch the last word of a
+                // value, which is a constant)
+                words.pop();
             }
             v.extend(frag_mem_append(&words));
             for ix in dyn_h0 {
@@ -751,6 +769,8 @@ pub fn realize(abs: &Abstract, numberings: &[Numbering]) -> Workload {
         faults: abs.faults.clone(),
         shape: abs.shape.clone(),
         beacons: abs.beacons,
+        stale_prelude: abs.stale_prelude && abs.entry != Entry::TwoPass,
+        prefix_prelude: abs.prefix_prelude && abs.entry != Entry::TwoPass && abs.sols.len() >= 2,
     }
 }
 
@@ -902,6 +922,7 @@ fn read_check_digest(
         data: &pre,
         overlay: if spec.post { Some(overlay) } else { None },
         bad: &bad,
+        sparse: w.faults.iter().any(|f| matches!(f, Fault::Sparse)),
     };
     let vals = view
         .key_range(essential_types::ContentAddress(c), spec.key.clone(), spec.count)
